@@ -1662,6 +1662,16 @@ def truc_rule_builder(ctx, crate):
                     ctx.add(['C12'], 'B-GUARD-DUP', b.key, 'a datum can be pushed without the duplicate-name lookup having answered "free"', key='bypass')
                 else:
                     ctx.inst('B-GUARD-DUP', 'push is reachable only through the "name is free" edge bb%d->bb%d' % (guard[0], guard[1]))
+                # … and a taken name is the only reason to refuse an addition: every error return sits behind
+                # the "name is taken" edge (another rejection refuses a request the property counts as valid,
+                # and makes acceptance depend on the order of the requests)
+                eb = err_blocks(b)
+                reach2 = b.reachable(0, unwind=False, removed_edges=[(guard[0], guard[2])])
+                extra = [x for x in eb if x in reach2]
+                if extra:
+                    ctx.add(['C12', 'C20'], 'B-GUARD-DUP', b.key, 'add_datum can refuse a request (error return in bb%s) for another reason than a name that is taken in the current variant: a valid addition is rejected, and a definition the builder accepted in one order of requests cannot be replayed in another' % ','.join(map(str, extra)), key='extra-rejection')
+                elif eb:
+                    ctx.inst('B-GUARD-DUP', 'every error return of add_datum (%d) is behind the "name is taken" edge' % len(eb))
             # data_to_add.push(id) with id = the result of that push
             dta = [(bb, t) for bb, t in b.calls() if callee_path(t) == 'alloc::vec::Vec::<T, A>::push' and (self_field_of(b, defs, t['args'][0]) or [None])[0] == ['data_to_add']]
             okid = len(dta) == 1 and trace_value(b, defs, dta[0][1]['args'][1])[-1][0] == 'call' and callee_path(trace_value(b, defs, dta[0][1]['args'][1])[-1][1]) == DDC + 'push'
